@@ -167,6 +167,13 @@ def advance_claims(s, I):
     out.append(("data packet: cursor moves behind the last byte stream, aligned to 4", z3.Implies(is_data, rd.cursor == align4(c0 + total))))
     out.append(("data packet: stream count equals the prototype length", z3.Implies(is_data, le16(D, c0 + U64(4)) == z3.BitVecVal(n, 16))))
     nz = [i for i in range(n) if width_of(s.proto[i][1]) > 0]
+    payload_bytes = sizes[0]
+    for sz in sizes[1:]:
+        payload_bytes = payload_bytes + sz
+    for i in range(n):
+        # C09: what one call produces is bounded by the bytes it consumed, never by a count declared elsewhere in the file
+        out.append(("data packet: queue %d grows by at most 8 values per payload byte (+8)" % i,
+                    z3.Implies(is_data, z3.ULE(U64(len(queues[i])), U64(8) * payload_bytes + U64(8)))))
     for i in range(n):
         w = width_of(s.proto[i][1])
         d = s.proto[i][1]
@@ -322,12 +329,13 @@ PROTOS = {
     "int1+single+const": [("CartesianX", ("Integer", 0, 1)), ("CartesianY", ("Single",)), ("CartesianZ", ("Integer", 7, 7))],
     "scaled33": [("CartesianX", ("ScaledInteger", -(1 << 32), 5, 0.001, 0.0))],
     "int64": [("CartesianX", ("Integer", -(1 << 63), (1 << 63) - 1))],
+    "int2 at the top of i64": [("CartesianX", ("Integer", (1 << 63) - 3, (1 << 63) - 1)), ("CartesianY", ("ScaledInteger", (1 << 63) - 4, (1 << 63) - 1, 1.0, 0.0))],
 }
 
 
 def scenarios(tier="quick"):
     out = []
-    MAXS = {"int11+double": (3, 9) if tier == "quick" else (6, 17), "int1+single+const": (1, 5, 0) if tier == "quick" else (2, 9, 1), "scaled33": 6, "int64": 9}
+    MAXS = {"int11+double": (3, 9) if tier == "quick" else (6, 17), "int1+single+const": (1, 5, 0) if tier == "quick" else (2, 9, 1), "scaled33": 6, "int64": 9, "int2 at the top of i64": (1, 1)}
     for key, proto in PROTOS.items():
         if tier == "quick" and key in ("int64",):
             continue
